@@ -246,6 +246,10 @@ def main():
         tasks.append(('lows', t_lows_full))
         chk.bounds.append('low-s step of sign() (IsGreaterThanHalfN + ConditionalNegate) at full width: every s in [1,n)')
 
+    # contracts this check's toy layer uses for routines named in the property's own file list: re-decided here (see common.include_dependency)
+    from .common import include_dependency
+    if not only or 'dep' in only:
+        include_dependency(chk, tasks, 'C05', 'table lookup basemult key', 'signing computes k*G with ScalarBaseMult (toy layer: contract)')
     chk.run_tasks(tasks)
     chk.discharge()
     chk.finish()
